@@ -15,9 +15,11 @@
                                                         encodeSorted = render ∘ sort ∘ (map order)
     recordJSON.ToNode, Policy.UnmarshalJSON annotations (sorted-after since the repair)   decodeRecordJsonOrd / decodeAnnotationsOrd
     coerceSet (x/exp/types)  (sorted-after since the repair)   coerceSetOrd
+    Set.orderedSlots (Set.MarshalJSON/MarshalCedar; sorted-after, probing order since the repair)   orderedSlots / marshalSetMembers
 -/
 import CedarGo.Model.Fold
 import CedarGo.Model.PolicySet
+import CedarGo.Model.SetImpl
 namespace CedarGo
 
 /-! ## Sorting (the model of `slices.Sort` / `slices.SortFunc` / `slices.Sorted` on a key list) -/
@@ -54,12 +56,50 @@ def encodeInMapOrder {κ : Type} (render : κ → String) (keysInMapOrder : List
     the schema printers (`slices.Sorted(maps.Keys(..))`) have the same shape over string keys -/
 def marshalByStringKey (render : String → String) (keysInMapOrder : List String) : List String :=
   encodeSorted strLe render keysInMapOrder
-/-- `Set.MarshalJSON/MarshalCedar`: slot numbers collected from the map, sorted, members rendered -/
+/-- `Set.MarshalJSON/MarshalCedar` before the repair of `set-hash-collision-order`: slot numbers collected from the
+    map, sorted, members rendered (kept for the regression examples; the repaired printer is `marshalSetMembers` below) -/
 def marshalSetOrd (render : Nat → String) (slotsInMapOrder : List Nat) : List String :=
   encodeSorted natLe render slotsInMapOrder
 /-- `Entity.MarshalJSON`: parents collected from the set, `slices.SortFunc` by (type, id) -/
 def marshalParentsOrd (render : UID → String) (parentsInMapOrder : List UID) : List String :=
   encodeSorted uidLe render parentsInMapOrder
+
+/-! ## `Set.orderedSlots` (types/set.go, repaired): the order in which `Set.MarshalJSON/MarshalCedar` visit the slots
+
+The table is the C11 model of the Go map (`Table`, slot numbers are `UInt64`, `NewSet` = `buildTable`).  The list
+argument is the table in the order the Go map yields its entries. -/
+
+/-- `slices.Sort` on `[]uint64` -/
+def slotLe (a b : UInt64) : Bool := decide (a ≤ b)
+
+/-- `for slot, v := range s.s { if v.hash() > slot { wrapped = true } }`: some element sits in a slot below its hash,
+    which happens only when `NewSet`'s probing (`hash++`) wrapped around from slot 2^64-1 to slot 0 -/
+def tableWrapped (hash : Value → UInt64) (t : Table) : Bool := t.any fun kv => decide (kv.1 < hash kv.2)
+
+/-- `i := len(slots)-1; for i > 0 && slots[i-1]+1 == slots[i] { i-- }` as the pair `(slots[:i], slots[i:])`: the sorted
+    slots split before the run of consecutive slots that ends with the last one -/
+def splitTopRun : List UInt64 → List UInt64 × List UInt64
+  | [] => ([], [])
+  | [k] => ([], [k])
+  | k :: k' :: rest =>
+    let br := splitTopRun (k' :: rest)
+    if br.1.isEmpty && k + 1 == k' then ([], k :: br.2) else (k :: br.1, br.2)
+
+/-- `Set.orderedSlots`: ascending; if an element wrapped around, the run of slots ending at the last slot first
+    (`slices.Concat(slots[i:], slots[:i])`) -/
+def orderedSlots (hash : Value → UInt64) (tableInMapOrder : Table) : List UInt64 :=
+  let slots := sortBy slotLe (tableInMapOrder.map (·.1))
+  if tableWrapped hash tableInMapOrder then (splitTopRun slots).2 ++ (splitTopRun slots).1 else slots
+
+/-- the table entries in the order of `orderedSlots` -/
+def orderedEntries (hash : Value → UInt64) (t : Table) : Table :=
+  (orderedSlots hash t).filterMap fun k => (t.get k).map fun v => (k, v)
+
+/-- the members in the order in which `Set.MarshalJSON/MarshalCedar` write them (`s.s[k]` for `k` in `orderedSlots`) -/
+def marshalSetMembers (hash : Value → UInt64) (t : Table) : List Value := (orderedEntries hash t).map (·.2)
+
+/-- the unrepaired order: ascending slots -/
+def marshalSetMembersBySlot (t : Table) : List Value := (sortBy slotLe (t.map (·.1))).filterMap t.get
 
 /-! ## Evaluation sites -/
 
